@@ -23,10 +23,13 @@ CLAIMED = {
              "integers (decide + lifting lemma) and rank-decreasing; (2) the n-ary bound analysis is value-preserving for every list of "
              "constraints, valuation and other operands, for any table passing the two checks (closure argument); (3) negation / De Morgan and "
              "negated-comparison flipping over the regenerated REVERSE_OPERATOR_MAPPING; (4) range-filter folding for literal bounds, any "
-             "visiting order; (5) closed form of sum(range(a,b)) for a<=b, with a counterexample theorem for a>b. 15 theorems.",
+             "visiting order; (5) what the rule emits for sum(range(a, b)) with integer literals is the sum for ALL a, b (sumRange_sound; empty and reversed ranges give 0 since the "
+             "repair 41b17e5; the bare closed form is not the sum - counterexample theorem). 16 theorems. Sums over stepped ranges and comprehensions have no model: a "
+             "stepped-sums oracle enumerates literal bounds x steps x bodies and symbolic shapes (value equal, no exception).",
         design="4/C17",
         note="Trusted: Lean kernel; models BoolSimp/Cond/RangeFold/SumRange tied by the bounds, negate, rangefold, sumrange suites; sympy.simplify "
-             "is external (its rewrites are only truth-table checked); value-vs-truthiness of and/or operands belongs to C02.",
+             "and sympy.Sum are external (their rewrites are only checked by truth table / by value); value-vs-truthiness of and/or operands belongs to C02; one recorded finding "
+             "(sum(range(n)) with a symbolic bound becomes n*(n-1)/2).",
         technique="Lean 4 proof (decide over regenerated tables + lifting lemmas, induction) + differential correspondence + truth-table oracle",
     ),
     "C15": dict(
